@@ -8,7 +8,7 @@ PROPS["C02"] = {
             "alphabet (integer boundaries 2^k+-1 and 10^k, 10^k-1 in unsigned and signed storage, float/double boundary values incl. NaN/Inf/denormals, "
             "the 256 one-byte strings, the all-bytes string, raw values incl. the empty one) alone and inside [x], {\"k\":x}, [x,x]; every such string as a key; "
             "all trees with <= N nodes (quick 3, thorough 4) over a reduced alphabet (thorough adds every 5-node tree with a 7-leaf alphabet from depth 2, unsanitized build); nesting chains of depth 1..12 (thorough: 100, 300). Each is serialized "
-            "compact and pretty into std::string, large char buffer, std::ostream, byte-wise custom writer, a writer that stops accepting, Arduino String and Print, "
+            "compact and pretty into std::string, large char buffer, std::ostream (also one with a pending field width and fill character), byte-wise custom writer, a writer that stops accepting, Arduino String and Print, "
             "fixed char arrays, and every capacity 0..length+2 (exact heap block under ASan and window of a sentinel buffer). "
             "non-trivial = document with a container, or a string needing an escape, or an integer beyond 32 bits, or a float printed with a fraction/exponent/null; distinct by case key",
     "assumptions": ["engine/refjson.hpp is the independent RFC 8259 parser; inside strings it accepts any byte except '\"', '\\\\' (DESIGN 4.3: raw control "
